@@ -326,13 +326,15 @@ structure RTree where
   margin : Option Rat
   negEnt : Path → Nat → Rat
   dps : Path → Nat → List Rat
+  /-- ghost: the sum of the datapoints the node has passed to its parent (leaf visits and descents) -/
+  up : Path → Rat
 
 def RTree.fresh (support : List Nat) (nA : Nat) : RTree :=
   { ex := fun p => p == [], nN := fun _ => 0, nA := fun p => if p = [] then nA else 0,
     tb := fun p s => if p = [] ∧ support.contains s then 1 else 0, keys := fun p => if p = [] then support else [],
     maxS := fun _ => 0, km := fun _ => 0, v := fun _ => 0, actV := fun _ => 0, best := fun _ => 0,
     aN := fun _ _ => 0, aV := fun _ _ => 0, stops := fun _ => 0, nodes := [[]], margin := none,
-    negEnt := fun _ _ => 0, dps := fun _ _ => [] }
+    negEnt := fun _ _ => 0, dps := fun _ _ => [], up := fun _ => 0 }
 
 def noteMargin (mg : Option Rat) (x y : Rat) : Option Rat :=
   let d := if x < y then y - x else x - y
@@ -380,7 +382,7 @@ def rleaf (t : RTree) (child : Path) (recV : Bool) (imm : Rat) : RTree :=
   --  eta-expanded by the compiler and re-evaluate the mean on every lookup)
   let nv : Rat := if recV then t.v child + (imm - t.v child) / ((t.nN child + 1 : Nat) : Rat) else t.v child
   { t with nN := upd t.nN child (t.nN child + 1), stops := upd t.stops child (t.stops child + 1),
-           v := upd t.v child nv }
+           v := upd t.v child nv, up := upd t.up child (t.up child + imm) }
 
 /-- the mean / max bookkeeping of a belief node below the root after one of its actions was updated:
     new `actionsV`, new `bestAction`, new comparison margin.  (`b.N == k_`: `actionsV = HUGE_VAL; bestAction = a`, then
@@ -409,8 +411,9 @@ def rup (m : Mdl) (k : Nat) (t : RTree) (p : Path) (a depth : Nat) (imm : Rat) :
   if depth = 0 then (t, 0) else
   let b := rbook k t p a imm
   let newV := m.gamma * b.1 + t.km p
-  ({ t with actV := upd t.actV p b.1, best := upd t.best p b.2.1, margin := b.2.2, v := upd t.v p newV },
-   ((t.nN p - 1 : Nat) : Rat) * (newV - t.v p) + newV)
+  let d : Rat := ((t.nN p - 1 : Nat) : Rat) * (newV - t.v p) + newV
+  ({ t with actV := upd t.actV p b.1, best := upd t.best p b.2.1, margin := b.2.2, v := upd t.v p newV,
+            up := upd t.up p (t.up p + d) }, d)
 
 /-- `rPOMCP::simulate(node at p, s, depth)`; `k` is the threshold `k_` -/
 def rsim (m : Mdl) (H k : Nat) : Nat → RTree → Path → Nat → Nat → List Step → Option (RTree × Rat × List Step)
@@ -451,7 +454,7 @@ def RTree.reroot (t : RTree) (k : Key) : RTree :=
     best := fun p => t.best (k :: p), aN := fun p => t.aN (k :: p), aV := fun p => t.aV (k :: p),
     stops := fun p => t.stops (k :: p),
     nodes := t.nodes.filterMap (fun p => match p with | k' :: r => if k' = k then some r else none | [] => none),
-    margin := t.margin, negEnt := fun p => t.negEnt (k :: p), dps := fun p => t.dps (k :: p) }
+    margin := t.margin, negEnt := fun p => t.negEnt (k :: p), dps := fun p => t.dps (k :: p), up := fun p => t.up (k :: p) }
 
 /-- the tree the simulations of a public rPOMCP call start from: a fresh head node, or the promoted child
     (`HNode(A, std::move(tmp), rand_)`: everything the child holds, its particle map becoming the sampling belief) -/
